@@ -56,31 +56,43 @@ theorem C14_publish (s : S) (tag : String) (retain : Bool) (topic msg : Bytes) (
       split at h <;> cases h
     | live =>
       simp only [hl] at h ⊢
-      generalize s.connWrite (writeBuffersTo · [hd, msg]) = w at h ⊢
-      obtain ⟨s', o⟩ := w
-      cases o with
-      | ok =>
-        simp only [beq_self_eq_true, if_true] at h ⊢
-        injection h with h; subst h
-        exact ⟨Or.inl rfl, fun hh => by rcases hh with hh | hh | hh <;> exact absurd hh (by decide)⟩
-      | timeout =>
-        simp only [show (WOut.timeout == WOut.ok) = false from rfl, Bool.false_eq_true, if_false] at h ⊢
-        injection h with h; subst h
-        refine ⟨Or.inr (Or.inr (Or.inr (Or.inr ⟨.timeout, by decide, rfl⟩))), fun hh => ?_⟩
-        rw [S.afterWriteErr_snd] at hh
-        rcases hh with hh | hh | hh <;> exact absurd hh (by decide)
-      | hard =>
-        simp only [show (WOut.hard == WOut.ok) = false from rfl, Bool.false_eq_true, if_false] at h ⊢
-        injection h with h; subst h
-        refine ⟨Or.inr (Or.inr (Or.inr (Or.inr ⟨.hard, by decide, rfl⟩))), fun hh => ?_⟩
-        rw [S.afterWriteErr_snd] at hh
-        rcases hh with hh | hh | hh <;> exact absurd hh (by decide)
-      | closed =>
-        simp only [show (WOut.closed == WOut.ok) = false from rfl, Bool.false_eq_true, if_false] at h ⊢
-        injection h with h; subst h
-        refine ⟨Or.inr (Or.inr (Or.inr (Or.inr ⟨.closed, by decide, rfl⟩))), fun hh => ?_⟩
-        rw [S.afterWriteErr_snd] at hh
-        rcases hh with hh | hh | hh <;> exact absurd hh (by decide)
+      by_cases hh : (s.held.isSome || !s.closers.isEmpty) = true
+      · simp only [hh, if_true] at h; cases h
+      · simp only [hh, Bool.false_eq_true, if_false] at h ⊢
+        by_cases hg : s.gateAhead = true
+        · simp only [hg, if_true] at h; cases h
+        · simp only [hg, Bool.false_eq_true, if_false] at h ⊢
+          generalize s.connWrite (writeBuffersTo · [hd, msg]) = w at h ⊢
+          obtain ⟨s', o⟩ := w
+          cases o with
+          | ok =>
+            simp only [beq_self_eq_true, if_true] at h ⊢
+            injection h with h; subst h
+            exact ⟨Or.inl rfl, fun hh => by rcases hh with hh | hh | hh <;> exact absurd hh (by decide)⟩
+          | timeout =>
+            simp only [show (WOut.timeout == WOut.ok) = false from rfl, show (WOut.timeout == WOut.gate) = false from rfl,
+              Bool.false_eq_true, if_false] at h ⊢
+            injection h with h; subst h
+            refine ⟨Or.inr (Or.inr (Or.inr (Or.inr ⟨.timeout, by decide, rfl⟩))), fun hh => ?_⟩
+            rw [S.afterWriteErr_snd] at hh
+            rcases hh with hh | hh | hh <;> exact absurd hh (by decide)
+          | hard =>
+            simp only [show (WOut.hard == WOut.ok) = false from rfl, show (WOut.hard == WOut.gate) = false from rfl,
+              Bool.false_eq_true, if_false] at h ⊢
+            injection h with h; subst h
+            refine ⟨Or.inr (Or.inr (Or.inr (Or.inr ⟨.hard, by decide, rfl⟩))), fun hh => ?_⟩
+            rw [S.afterWriteErr_snd] at hh
+            rcases hh with hh | hh | hh <;> exact absurd hh (by decide)
+          | closed =>
+            simp only [show (WOut.closed == WOut.ok) = false from rfl, show (WOut.closed == WOut.gate) = false from rfl,
+              Bool.false_eq_true, if_false] at h ⊢
+            injection h with h; subst h
+            refine ⟨Or.inr (Or.inr (Or.inr (Or.inr ⟨.closed, by decide, rfl⟩))), fun hh => ?_⟩
+            rw [S.afterWriteErr_snd] at hh
+            rcases hh with hh | hh | hh <;> exact absurd hh (by decide)
+          | gate =>
+            simp only [show (WOut.gate == WOut.ok) = false from rfl, beq_self_eq_true, Bool.false_eq_true, if_false, if_true] at h
+            cases h
 
 /-- A publish the core refuses (closed, max, Save failure) leaves counters,
 queues and store untouched: nothing was enqueued, no identifier consumed. -/
